@@ -232,6 +232,20 @@ def step2 (st : DState) (toks : List String) : DState × String :=
             if k == .request then (if up then "request" else "dropped") else (if up then "accepted" else "dropped"))
         | none => (st, "bad-op"))
       | _, _ => (st, "bad-op"))
+  | ["recvraw", src, thex, kind] => (match parseAddr src, hx thex with
+      | some a, some t =>
+        let tid : Option Nat := match t with
+          | [b0, b1, b2, b3] => some (b0.toNat * 16777216 + b1.toNat * 65536 + b2.toNat * 256 + b3.toNat)
+          | [b0, b1] => some (b0.toNat * 256 + b1.toNat)
+          | _ => none
+        let k : Option Incoming := if kind == "ok" then some .response else if kind == "err" then some .error else none
+        (match k, tid with
+        | some k, some tid =>
+          let (sock, up) := st.sock.recv k tid a st.now
+          ({ st with sock := sock }, if up then "accepted" else "dropped")
+        | some _, none => ({ st with sock := st.sock.cleanup st.now }, "dropped")   -- not a KRPC message: nothing but `cleanup` happens
+        | none, _ => (st, "bad-op"))
+      | _, _ => (st, "bad-op"))
   | ["inflight", tid] => (match tid.toNat? with
       | some tid => (st, toString (st.sock.isInflight tid st.now))
       | none => (st, "bad-op"))
